@@ -146,35 +146,41 @@ Fixpoint move_chunks (fuel : nat) (q : queue) (pos n len : nat) : res queue :=
     move_chunks fuel q' (pos + part) n (len - part)
   end.
 
+(* crop what was consumed and report *)
+Definition recv_deliver (d : dqueue) : res (rres * dqueue) :=
+  do d' <- dqueue_shift d;
+  Ok (match dmsg (dq_st d') with Some _ => RMsg | None => RMore end, d').
+
+(* the decoder ran out of scratch space: add prefix space, move the decoded bytes down in
+   chunks, decode again; [len0] = queue length before *)
+Definition recv_recover (v : variant) (d1 : dqueue) (len0 : nat) : res (rres * dqueue) :=
+  let q1 := dq_q d1 in
+  if qmax q1 <=? len0 then Ok (RErr MissingBuffer, d1) else
+  let n := qmax q1 - len0 in
+  match qpre q1 n with
+  | Err _ => Ok (RErr MissingBuffer, d1)
+  | Fault => Fault
+  | Ok q2 =>
+    let st := dq_st d1 in
+    do q3 <- move_chunks (S (dlen st / 256 + 1)) q2 (dpos st) n (dlen st);
+    let st' := mkd (dcode st) (dpos8 st) (dcurr st + n) (dpos st) (dlen st) (dmsg st) in
+    do '(r2, d2) <- decode_ring v (mkdq q3 st');
+    match r2 with
+    | DMsg | DMore => recv_deliver d2
+    | DErr e => Ok (RErr e, d2)
+    | DFault => Ok (RFault, d2)
+    end
+  end.
+
 (* mpt_queue_recv (with decoder) *)
 Definition dqueue_recv (v : variant) (d : dqueue) : res (rres * dqueue) :=
   let q := dq_q d in
   if qlen q =? 0 then Ok (RErr MissingData, d) else
   do '(r, d1) <- decode_ring v d;
-  let deliver (d : dqueue) : res (rres * dqueue) :=
-    do d' <- dqueue_shift d;
-    Ok (match dmsg (dq_st d') with Some _ => RMsg | None => RMore end, d') in
   match r with
-  | DMsg | DMore => deliver d1
+  | DMsg | DMore => recv_deliver d1
   | DFault => Ok (RFault, d1)
-  | DErr MissingBuffer =>
-    let q1 := dq_q d1 in
-    if qmax q1 <=? qlen q then Ok (RErr MissingBuffer, d1) else
-    let n := qmax q1 - qlen q in
-    match qpre q1 n with
-    | Err _ => Ok (RErr MissingBuffer, d1)
-    | Fault => Fault
-    | Ok q2 =>
-      let st := dq_st d1 in
-      do q3 <- move_chunks (S (dlen st / 256 + 1)) q2 (dpos st) n (dlen st);
-      let st' := mkd (dcode st) (dpos8 st) (dcurr st + n) (dpos st) (dlen st) (dmsg st) in
-      do '(r2, d2) <- decode_ring v (mkdq q3 st');
-      match r2 with
-      | DMsg | DMore => deliver d2
-      | DErr e => Ok (RErr e, d2)
-      | DFault => Ok (RFault, d2)
-      end
-    end
+  | DErr MissingBuffer => recv_recover v d1 (qlen q)
   | DErr e => Ok (RErr e, d1)
   end.
 
